@@ -221,7 +221,7 @@ CHECKS["C09"] = dict(
          "messages sent back to back are run under explicit schedules (handler futures polled by the harness, "
          "configuration answers delivered in every/random order), plus re-opens, returning texts and walks over every "
          "ordered pair of five configurations; the stateful trace spec (spec/trace/Trace_LspServer.tla) tracks the "
-         "client's newest text and configuration and the last publish per url.",
+         "client's newest text and configuration and the last publish per url. The user dictionary is server state in spec/UserDict.tla (one named deviation refuted on every run); sessions with several open documents that share an unknown word are validated by spec/trace/Trace_UserDict.tla.",
     note="Trusted: TLC; a publish is identified as the (text, configuration) pairs for which a fresh server publishes "
          "exactly these diagnostics (reference table built at the start of the run). Interleavings inside the "
          "dictionary-loading part are left to the runtime (no gating hooks).",
